@@ -17,8 +17,8 @@
 From MptV Require Import Base.Mem C10.ConfigModel.
 Local Open Scope nat_scope.
 
-Definition name := list byte.
-Definition key := list name.
+Notation name := (list byte) (only parsing).
+Notation key := (list (list byte)) (only parsing).
 
 Fixpoint key_eqb (a b : key) : bool :=
   match a, b with
@@ -129,20 +129,21 @@ Fixpoint srun (h : list sop) (ops : list hop) (macc : list cout) : list cout * l
    Paths, abstractly: a list of elements plus the not yet committed "post"
    bytes behind it.  This is what walking the path element by element has to
    show after any history of path operations. *)
-Record apath := mkap { aelems : list name; apost : list byte; abin : bool; asep : byte; aassign : byte }.
+Record apath := mkap { aelems : list name; apost : list byte; abin : bool; asep : byte; aassign : byte;
+                        anull : bool (* no storage yet: nothing can be added *) }.
 
 Definition has_byte (c : byte) (l : list byte) : bool := existsb (beq c) l.
 
 Definition astep (a : apath) (o : pop) : apath * pret :=
-  let keep e po := mkap e po (abin a) (asep a) (aassign a) in
+  let keep e po := mkap e po (abin a) (asep a) (aassign a) (anull a) in
   match o with
-  | PSet None _ => (keep [] [], RNum 0)
+  | PSet None _ => (mkap [] [] false (asep a) (aassign a) true, RNum 0)
   | PSet (Some s) len =>
     let data := match len with None => upto 0%N s ++ [0%N] | Some n => firstn n (s ++ [0%N]) end in
     let body := upto (aassign a) data in
     (* a string ends at its NUL even when that is not the assign character *)
     let body := match len with None => upto 0%N body | Some _ => body end in
-    (mkap (split (asep a) body) [] false (asep a) (aassign a), RNum 0)
+    (mkap (split (asep a) body) [] false (asep a) (aassign a) false, RNum 0)
   | PNext =>
     match aelems a with
     | [] => (a, RErr MissingData)
@@ -159,7 +160,8 @@ Definition astep (a : apath) (o : pop) : apath * pret :=
     | e :: r => (keep (rev r) [], RNum (length e))
     end
   | PAdd n =>
-    if length (apost a) <? n then (a, RErr BadValue)
+    if anull a then (a, RErr MissingBuffer)
+    else if length (apost a) <? n then (a, RErr BadValue)
     else
       let e := firstn n (apost a) in
       if abin a then
@@ -168,6 +170,6 @@ Definition astep (a : apath) (o : pop) : apath * pret :=
       else
         if has_byte (asep a) e then (a, RErr BadValue)
         else (keep (aelems a ++ [e]) (skipn (n + 1) (apost a)), RNum 0)
-  | PPost d => (keep (aelems a) (apost a ++ d), RNum 0)
-  | PBin => (mkap (aelems a) (apost a) true (asep a) (aassign a), RNum 0)
+  | PPost d => (mkap (aelems a) (apost a ++ d) (abin a) (asep a) (aassign a) (match d with [] => anull a | _ => false end), RNum 0)
+  | PBin => (mkap (aelems a) (apost a) true (asep a) (aassign a) (anull a), RNum 0)
   end.
